@@ -14,7 +14,7 @@ fn opt_value<'a>(c: &'a [String], opt: &str) -> Option<&'a str> { c.iter().posit
 fn kinds(c: &[String]) -> String { format!("{} {}", c[0], if c[0] == "docker" && c.get(1).map(String::as_str) == Some("volume") { "volume rm".to_string() } else if c[0] == "pack" && c.get(1).map(String::as_str) == Some("sbom") { "sbom download".to_string() } else { c.get(1).cloned().unwrap_or_default() }) }
 
 struct Outcome { cmds: Vec<Vec<String>>, tmp_left: Vec<String>, code: Option<i32> }
-fn run(root: &Path, id: usize, scenario: &str, expect_failure: bool, preproc: bool, fail: Option<(&str, usize)>, noise: bool) -> Outcome {
+fn run(root: &Path, id: usize, scenario: &str, expect_failure: bool, preproc: bool, fail: Option<(&str, usize)>, noise: bool, signal: bool, parallel: usize) -> Outcome {
     let dir = root.join(format!("s{id}")); std::fs::create_dir_all(dir.join("tmp")).unwrap();
     let log = dir.join("cmd.log");
     let bp = Path::new(env!("CARGO_MANIFEST_DIR")).join("target/release/c16bp");
@@ -22,8 +22,9 @@ fn run(root: &Path, id: usize, scenario: &str, expect_failure: bool, preproc: bo
     c.env("PATH", format!("{}:{}", root.join("bin").display(), std::env::var("PATH").unwrap_or_default()))
         .env("VERIF_CMDLOG", &log).env("VERIF_SCENARIO", scenario).env("VERIF_APP", root.join("fixture")).env("CARGO_MANIFEST_DIR", root)
         .env("TMPDIR", dir.join("tmp")).env("VERIF_EXPECT", if expect_failure { "failure" } else { "success" }).env("VERIF_PREPROC", if preproc { "1" } else { "0" })
-        .env("VERIF_FAIL", fail.map(|(k, n)| format!("{k}#{n}")).unwrap_or_default()).env("VERIF_NOISE", if noise { "1" } else { "" })
+        .env("VERIF_FAIL", fail.map(|(k, n)| format!("{k}#{n}")).unwrap_or_default()).env("VERIF_NOISE", if noise { "1" } else { "" }).env("VERIF_FAIL_HOW", if signal { "signal" } else { "" })
         .stdout(std::process::Stdio::null()).stderr(std::process::Stdio::null());
+    if parallel > 0 { c.env("VERIF_PARALLEL", parallel.to_string()); }
     let st = c.status().unwrap();
     let tmp_left: Vec<String> = std::fs::read_dir(dir.join("tmp")).unwrap().map(|e| e.unwrap().file_name().to_string_lossy().to_string()).collect();
     let out = Outcome { cmds: recorded(&log), tmp_left, code: st.code() };
@@ -72,7 +73,7 @@ fn judge(o: &Outcome) -> Vec<(&'static str, String)> {
 
 pub fn cleanup(thorough: bool) -> Report {
     let mut r = Report::new(
-        "libcnb-test scenario trees run in a child process against recorder `pack` / `docker` on PATH: test-closure sequences over {run_shell_command, download_sbom_files, start_container[container-closure sequence over {logs_now, logs_wait, address_for_port, shell_exec, panic}], panic}, optionally ending in rebuild[...], x ONE injected event per run {none, a panic placed in the scenario, the n-th command of each kind the scenario issues (pack build, docker run, logs, port, exec, sbom download, rm, rmi, volume rm) exits 1, EVERY command of one kind exits 1, every command prints bytes that are not valid UTF-8 on stdout and stderr} x expected pack result {success, failure} x app preprocessor {no, yes}: from the recorded argv log and TMPDIR afterwards - every container started detached is force-removed once after its start; image and both cache volumes are force-removed exactly once after their last use; nothing else is removed; TMPDIR is empty; non-trivial = runs with a panic or an injected failure",
+        "libcnb-test scenario trees run in a child process against recorder `pack` / `docker` on PATH: test-closure sequences over {run_shell_command, download_sbom_files, start_container[container-closure sequence over {logs_now, logs_wait, address_for_port, shell_exec, panic}], panic}, optionally ending in rebuild[...], x ONE injected event per run {none, a panic placed in the scenario, the n-th command of each kind the scenario issues (pack build, docker run, logs, port, exec, sbom download, rm, rmi, volume rm) exits 1, EVERY command of one kind exits 1, the n-th command of a kind is killed by a signal, every command prints bytes that are not valid UTF-8 on stdout and stderr} x expected pack result {success, failure} x app preprocessor {no, yes}: from the recorded argv log and TMPDIR afterwards - every container started detached is force-removed once after its start; image and both cache volumes are force-removed exactly once after their last use; nothing else is removed; TMPDIR is empty; plus three scenarios run by 8 threads of one process at once (names pairwise distinct, one removal each); non-trivial = runs with a panic or an injected failure",
         if thorough { "closure sequences up to length 2, container-closure sequences up to length 2" } else { "closure sequences up to length 2, container-closure sequences up to length 1" },
     );
     let t = tempfile::tempdir().unwrap(); let root = t.path().canonicalize().unwrap();
@@ -80,7 +81,7 @@ pub fn cleanup(thorough: bool) -> Report {
     for tool in ["pack", "docker"] {
         let p = root.join("bin").join(tool);
         // records argv; exits 1 when this is the n-th command of the kind named in VERIF_FAIL ("docker run#2"); `docker port` prints an address
-        std::fs::write(&p, "#!/bin/sh\ntool=$(basename \"$0\")\nkind=\"$tool $1\"\n[ \"$1\" = volume ] && kind=\"$tool volume rm\"\n[ \"$tool $1\" = \"pack sbom\" ] && kind=\"pack sbom download\"\n{ printf '%s\\0' \"$tool\" \"$@\"; printf '\\n--END--\\n'; } >> \"$VERIF_CMDLOG\"\nprintf '%s\\n' \"$kind\" >> \"$VERIF_CMDLOG.kinds\"\nif [ -n \"$VERIF_NOISE\" ]; then printf 'caf\\351 \\377\\376\\n' >&2; [ \"$kind\" = \"docker port\" ] || printf 'caf\\351 \\377\\376\\n'; fi\nif [ -n \"$VERIF_FAIL\" ]; then want=${VERIF_FAIL%#*}; nth=${VERIF_FAIL##*#}; if [ \"$kind\" = \"$want\" ] && { [ \"$nth\" = 0 ] || [ \"$(grep -c -x -F \"$want\" \"$VERIF_CMDLOG.kinds\")\" = \"$nth\" ]; }; then echo injected failure >&2; exit 1; fi; fi\n[ \"$kind\" = \"docker port\" ] && echo 127.0.0.1:49153\nexit 0\n").unwrap();
+        std::fs::write(&p, "#!/bin/sh\ntool=$(basename \"$0\")\nkind=\"$tool $1\"\n[ \"$1\" = volume ] && kind=\"$tool volume rm\"\n[ \"$tool $1\" = \"pack sbom\" ] && kind=\"pack sbom download\"\n# one record per command, appended under a lock: commands of concurrent builds must not interleave inside the log\n( flock 9; { printf '%s\\0' \"$tool\" \"$@\"; printf '\\n--END--\\n'; } >> \"$VERIF_CMDLOG\"; printf '%s\\n' \"$kind\" >> \"$VERIF_CMDLOG.kinds\" ) 9>>\"$VERIF_CMDLOG.lock\"\nif [ -n \"$VERIF_NOISE\" ]; then printf 'caf\\351 \\377\\376\\n' >&2; [ \"$kind\" = \"docker port\" ] || printf 'caf\\351 \\377\\376\\n'; fi\nif [ -n \"$VERIF_FAIL\" ]; then want=${VERIF_FAIL%#*}; nth=${VERIF_FAIL##*#}; if [ \"$kind\" = \"$want\" ] && { [ \"$nth\" = 0 ] || [ \"$(grep -c -x -F \"$want\" \"$VERIF_CMDLOG.kinds\")\" = \"$nth\" ]; }; then echo injected failure >&2; [ \"$VERIF_FAIL_HOW\" = signal ] && kill -KILL $$; exit 1; fi; fi\n[ \"$kind\" = \"docker port\" ] && echo 127.0.0.1:49153\nexit 0\n").unwrap();
         use std::os::unix::fs::PermissionsExt; std::fs::set_permissions(&p, std::fs::Permissions::from_mode(0o755)).unwrap();
     }
     if !Path::new(env!("CARGO_MANIFEST_DIR")).join("target/release/c16bp").exists() { r.violation("harness", "c16bp binary missing", String::new(), "built".into(), "absent".into()); return r; }
@@ -94,22 +95,24 @@ pub fn cleanup(thorough: bool) -> Report {
     for a in &ops { if a == "!" { continue; } for b in &ops { scenarios.push(format!("{a},{b}")); } }
     for rb in &rebuilds { scenarios.push(rb.clone()); for a in &ops { if a != "!" { scenarios.push(format!("{a},{rb}")); } } }
     // ---- jobs: (scenario, expect_failure, preproc, fault)
-    let mut jobs: Vec<(String, bool, bool, Option<(String, usize)>, bool)> = vec![];
+    let mut jobs: Vec<(String, bool, bool, Option<(String, usize)>, bool, bool)> = vec![];   // (scenario, expect failure, preprocessor, fault, noisy output, fault = killed by a signal)
     for (si, s) in scenarios.iter().enumerate() {
         // reference run without fault tells which command kinds occur (and how often)
-        let o = run(&root, si, s, false, false, None, false);
+        let o = run(&root, si, s, false, false, None, false, false, 0);
         let mut counts: std::collections::BTreeMap<String, usize> = Default::default();
         for c in &o.cmds { *counts.entry(kinds(c)).or_insert(0) += 1; }
-        jobs.push((s.clone(), false, si % 3 == 0, None, false));
-        jobs.push((s.clone(), false, false, None, true));                                  // every command prints bytes that are not UTF-8
-        jobs.push((s.clone(), true, false, Some(("pack build".into(), 1)), si % 2 == 1));       // pack fails as expected
-        jobs.push((s.clone(), true, false, None, false));                                   // pack succeeds although failure was expected
+        jobs.push((s.clone(), false, si % 3 == 0, None, false, false));
+        jobs.push((s.clone(), false, false, None, true, false));                                  // every command prints bytes that are not UTF-8
+        jobs.push((s.clone(), true, false, Some(("pack build".into(), 1)), si % 2 == 1, false));       // pack fails as expected
+        jobs.push((s.clone(), true, false, None, false, false));                                   // pack succeeds although failure was expected
         // ONE injected event per run: a scenario that panics on its own gets no additional command failure
         // (a closure panic PLUS a failing `docker rm` makes ContainerContext::drop panic while unwinding, which aborts the process - two faults, outside the quantifier; DESIGN.md 9.3)
         if s.contains('!') { continue; }
-        for (k, n) in &counts { for i in 1..=*n { if thorough || i == 1 || k == "pack build" { jobs.push((s.clone(), false, si % 2 == 0 && k == "pack build", Some((k.clone(), i)), false)); } } }
+        for (k, n) in &counts { for i in 1..=*n { if thorough || i == 1 || k == "pack build" { jobs.push((s.clone(), false, si % 2 == 0 && k == "pack build", Some((k.clone(), i)), false, false)); } } }
+        // the command is KILLED BY A SIGNAL (no exit code) instead of exiting 1
+        for k in counts.keys() { jobs.push((s.clone(), false, false, Some((k.clone(), 1)), false, true)); }
         // ONE persistent cause: every command of a kind fails (a dead container fails every `docker logs`, also one issued during cleanup)
-        for k in counts.keys() { if k != "pack build" { jobs.push((s.clone(), false, false, Some((k.clone(), 0)), false)); } }
+        for k in counts.keys() { if k != "pack build" { jobs.push((s.clone(), false, false, Some((k.clone(), 0)), false, false)); } }
     }
     let base = scenarios.len();
     let results: Vec<(usize, Outcome)> = {
@@ -117,18 +120,42 @@ pub fn cleanup(thorough: bool) -> Report {
         let next = std::sync::atomic::AtomicUsize::new(0); let out = std::sync::Mutex::new(vec![]);
         std::thread::scope(|sc| { for _ in 0..14 { sc.spawn(|| loop {
             let i = next.fetch_add(1, std::sync::atomic::Ordering::SeqCst); if i >= jobs.len() { break; }
-            let (s, ef, pp, f, nz) = &jobs[i];
-            let o = run(root, base + i, s, *ef, *pp, f.as_ref().map(|(k, n)| (k.as_str(), *n)), *nz);
+            let (s, ef, pp, f, nz, sg) = &jobs[i];
+            let o = run(root, base + i, s, *ef, *pp, f.as_ref().map(|(k, n)| (k.as_str(), *n)), *nz, *sg, 0);
             out.lock().unwrap().push((i, o));
         }); } });
         let mut v = out.into_inner().unwrap(); v.sort_by_key(|x| x.0); v
     };
     for (i, o) in results {
-        let (s, ef, pp, f, nz) = &jobs[i];
+        let (s, ef, pp, f, nz, sg) = &jobs[i];
         r.evaluations += 1; if s.contains('!') || f.is_some() || *ef { r.nontrivial += 1; }
         for (case, what) in judge(&o) {
-            r.violation(case, "Docker resources / temporary directories after the scenario ended", format!("scenario {s:?} (s shell, d sbom, c[..] container with l logs / w logs_wait / p port / e exec, r[..] rebuild, ! panic), expected pack result {}, preprocessor {pp}, injected failure {f:?} (n-th command of the kind exits 1; 0 = every one), commands print non-UTF-8 bytes: {nz}; exit code {:?}; commands: {:?}", if *ef { "failure" } else { "success" }, o.code, o.cmds.iter().map(|c| c.join(" ")).collect::<Vec<_>>()), "every started container, the image and both cache volumes force-removed exactly once after last use; nothing else removed; TMPDIR empty".into(), what);
+            r.violation(case, "Docker resources / temporary directories after the scenario ended", format!("scenario {s:?} (s shell, d sbom, c[..] container with l logs / w logs_wait / p port / e exec, r[..] rebuild, ! panic), expected pack result {}, preprocessor {pp}, injected failure {f:?} (n-th command of the kind exits 1; 0 = every one), commands print non-UTF-8 bytes: {nz}, failing command killed by a signal: {sg}; exit code {:?}; commands: {:?}", if *ef { "failure" } else { "success" }, o.code, o.cmds.iter().map(|c| c.join(" ")).collect::<Vec<_>>()), "every started container, the image and both cache volumes force-removed exactly once after last use; nothing else removed; TMPDIR empty".into(), what);
         }
+    }
+    // ---- several builds at the same time in ONE process (threads, as `cargo test` runs tests): every build has its own image, volumes and containers
+    for (pi, s) in ["c[l]", "s,c[]", ""].iter().enumerate() {
+        let n = 8usize;
+        let o = run(&root, base + jobs.len() + pi, s, false, false, None, false, false, n);
+        r.evaluations += 1; r.nontrivial += 1;
+        let input = format!("scenario {s:?} run by {n} threads of one process at the same time; exit code {:?}; commands: {:?}", o.code, o.cmds.iter().map(|c| c.join(" ")).collect::<Vec<_>>());
+        let mut bad: Vec<String> = vec![];
+        let builds: Vec<&Vec<String>> = o.cmds.iter().filter(|c| c[0] == "pack" && c.get(1).map(String::as_str) == Some("build")).collect();
+        if builds.len() != n { bad.push(format!("{} pack build commands for {n} builds", builds.len())); }
+        let mut names: Vec<String> = vec![];
+        for b in &builds {
+            if let Some(img) = b.iter().skip(2).find(|a| a.starts_with("libcnbtest_")) { names.push(img.clone()); }
+            for (i, a) in b.iter().enumerate() { if a == "--cache" { if let Some(v) = b.get(i + 1) { if let Some(x) = v.split(';').find_map(|kv| kv.strip_prefix("name=")) { names.push(x.to_string()); } } } }
+        }
+        for c in &o.cmds { if c[0] == "docker" && c.get(1).map(String::as_str) == Some("run") && c.iter().any(|a| a == "--detach") { if let Some(x) = opt_value(c, "--name") { names.push(x.to_string()); } } }
+        let distinct: BTreeSet<&String> = names.iter().collect();
+        if distinct.len() != names.len() { bad.push(format!("resource names are shared between concurrent builds: {} names, {} distinct", names.len(), distinct.len())); }
+        for nm in &distinct {
+            let removals = o.cmds.iter().filter(|c| c[0] == "docker" && matches!(c.get(1).map(String::as_str), Some("rm") | Some("rmi") | Some("volume")) && c.iter().any(|a| a == *nm)).count();
+            if removals != 1 { bad.push(format!("{nm} removed {removals} times")); }
+        }
+        if !o.tmp_left.is_empty() { bad.push(format!("left in TMPDIR: {:?}", o.tmp_left)); }
+        if !bad.is_empty() { r.violation("parallel_builds", "concurrent builds in one process: each has its own image, cache volumes and containers, each removed exactly once", input, "pairwise distinct names, one removal each, TMPDIR empty".into(), bad.join("; ")); }
     }
     r.samples.push("c[p,!] with `docker port` failing: docker run --detach --name N .. ; docker port N ; docker logs N ; docker rm --force N ; docker rmi --force I ; docker volume rm --force B L".into());
     r
